@@ -80,6 +80,18 @@ def Cons.purge (c : Cons) : Cons := { Cons.empty with le := c.le }
 /-- The pending rule of `BundleDescriptor.Sync`. -/
 def Cons.pendingRule (c : Cons) : Bool := !c.rp && (c.fp || c.ci)
 
+/-- The properties of a store item that belong to the routing algorithms. -/
+structure Routing where
+  /-- `Properties["routing/epidemic/destination"]` -/
+  epiDst : Option Eid
+  /-- `Properties["routing/epidemic/sent"]`, `…/prophet/sent`, `…/dtlsr/sent` -/
+  sentE : List Eid
+  sentP : List Eid
+  sentD : List Eid
+deriving DecidableEq, Repr
+
+def Routing.empty : Routing := ⟨none, [], [], []⟩
+
 /-- `storage.BundleItem` as far as routing uses it. -/
 structure Item where
   /-- the bundle whose serialisation is in the part file -/
@@ -90,12 +102,7 @@ structure Item where
   cons : Cons
   /-- `Properties["bundlepack/receiver"]` (absent / dtn:none = none) -/
   receiver : Option Eid
-  /-- `Properties["routing/epidemic/destination"]` -/
-  epiDst : Option Eid
-  /-- `Properties["routing/epidemic/sent"]`, `…/prophet/sent`, `…/dtlsr/sent` -/
-  sentE : List Eid
-  sentP : List Eid
-  sentD : List Eid
+  rt : Routing
 deriving DecidableEq, Repr
 
 /-- The store index: an association list in insertion order. -/
@@ -144,6 +151,9 @@ structure Cfg where
   /-- code variant: `DTLSR.ReportFailure` removes the peer from the sent list of a broadcast bundle
       (`false` = the original empty function) -/
   dtlsrFail : Bool
+  /-- code variant: `Core.dispatching` marks a bundle contraindicated when the routing algorithm does
+      not allow its dispatching (`false` = the original code just returns) -/
+  holdFix : Bool
 deriving DecidableEq, Repr
 
 /-- `sprayMetaData` (in memory only). -/
@@ -190,8 +200,8 @@ inductive Event where
 deriving DecidableEq, Repr
 
 inductive Output where
-  /-- `ConvergenceSender.Send` of CLA `addr` was called with bundle `tag` and answered `ok` -/
-  | sent (addr : Nat) (tag : Nat) (ok : Bool)
+  /-- `ConvergenceSender.Send` of this CLA was called with this bundle and answered `ok` -/
+  | sent (p : Peer) (b : Bundle) (ok : Bool)
   /-- the item with this key was in the store before the event and is not afterwards -/
   | deleted (k : Key)
 deriving DecidableEq, Repr
@@ -234,6 +244,16 @@ def hasEndpoint (c : Cfg) (e : Eid) : Bool := e.node == c.self
 
 def Node.setItem (n : Node) (k : Key) (it : Item) : Node := { n with store := n.store.set k it }
 
+/-- `QueryId` · modify · `Update`: nothing happens when the item does not exist. -/
+def modItem (k : Key) (f : Item → Item) (n : Node) : Node :=
+  match n.store.get k with
+  | none => n
+  | some it => n.setItem k (f it)
+
+/-- A read-modify-write that only touches the routing properties. -/
+def modRt (k : Key) (f : Routing → Routing) (n : Node) : Node :=
+  modItem k (fun it => { it with rt := f it.rt }) n
+
 /-! ## storage -/
 
 /-- `calcExpirationDate`. The original code adds the lifetime to the creation time even when that
@@ -243,7 +263,7 @@ def calcExpires (c : Cfg) (now : Nat) (b : Bundle) : Nat :=
 
 def newItem (c : Cfg) (now : Nat) (b : Bundle) : Item :=
   { bundle := b, pending := false, expires := calcExpires c now b, cons := Cons.empty,
-    receiver := none, epiDst := none, sentE := [], sentP := [], sentD := [] }
+    receiver := none, rt := Routing.empty }
 
 /-- `Store.Push` (unfragmented bundles): insert if the ID is unknown, else ignore. -/
 def push (b : Bundle) (n : Node) : Node :=
@@ -308,19 +328,17 @@ def filterCLAs : List Eid → List Peer → List Peer × List Eid
 
 def isSensor (c : Cfg) (e : Eid) : Bool := c.sensorNodes.contains e.node
 
+/-- `EpidemicRouting.NotifyNewBundle` on the routing properties. -/
+def epiNotify (b : Bundle) (r : Routing) : Routing :=
+  let r1 := if r.epiDst.isNone then { r with epiDst := some b.dst } else r
+  match b.prev with
+  | none => r1
+  | some p => if r1.sentE.contains p then r1 else { r1 with sentE := r1.sentE ++ [p] }
+
 /-- `NotifyNewBundle` of the configured algorithm for the descriptor key `k` and the in-memory bundle `b`. -/
 def notifyNew (k : Key) (b : Bundle) (n : Node) : Node :=
   match n.cfg.algo with
-  | .epidemic =>
-    match n.store.get k with
-    | none => n
-    | some it =>
-      let it1 := if it.epiDst.isNone then { it with epiDst := some b.dst } else it
-      match b.prev with
-      | none => n.setItem k it1
-      | some p =>
-        if it1.sentE.contains p then n.setItem k it1
-        else n.setItem k { it1 with sentE := it1.sentE ++ [p] }
+  | .epidemic => modRt k (epiNotify b) n
   | .spray =>
     let m : SprayMeta :=
       if hasEndpoint n.cfg b.src then { sent := [], copies := n.cfg.sprayL }
@@ -333,21 +351,13 @@ def notifyNew (k : Key) (b : Bundle) (n : Node) : Node :=
       | none => { sent := [], copies := n.cfg.sprayL }
     { n with spray := setMeta n.spray k m }
   | .prophet =>
-    match n.store.get k with
+    match b.prev with
     | none => n
-    | some it =>
-      match b.prev with
-      | none => n
-      | some p =>
-        if it.sentP.contains p then n
-        else n.setItem k { it with sentP := it.sentP ++ [p] }
+    | some p => modRt k (fun r => if r.sentP.contains p then r else { r with sentP := r.sentP ++ [p] }) n
   | .dtlsr =>
-    match n.store.get k with
+    match b.prev with
     | none => n
-    | some it =>
-      match b.prev with
-      | none => n
-      | some p => n.setItem k { it with sentD := it.sentD ++ [p] }
+    | some p => modRt k (fun r => { r with sentD := r.sentD ++ [p] }) n
 
 /-- `DispatchingAllowed`. Epidemic: allowed iff the bundle is for this node or some connected sender
 is not in the sent list; when it says no it marks the item pending itself. All others: always. -/
@@ -357,11 +367,10 @@ def dispatchingAllowed (env : Env) (d : Desc) (n : Node) : Bool × Node :=
     match n.store.get d.key with
     | none => (true, n)
     | some it =>
-      if (match it.epiDst with | some e => hasEndpoint n.cfg e | none => false) then (true, n)
-      else
-        let css := (filterCLAs it.sentE (senders env n d.key)).1
-        if css.isEmpty then (false, n.setItem d.key { it with pending := true })
-        else (true, n)
+      if (match it.rt.epiDst with | some e => hasEndpoint n.cfg e | none => false) then (true, n)
+      else if (filterCLAs it.rt.sentE (senders env n d.key)).1.isEmpty
+      then (false, modItem d.key (fun it => { it with pending := true }) n)
+      else (true, n)
   | _ => (true, n)
 
 /-- The loop of `SprayAndWait.SenderForBundle`. -/
@@ -377,10 +386,7 @@ def sprayPick : SprayMeta → List Peer → List Peer × SprayMeta
 /-- `ReportFailure` of the underlying algorithm. -/
 def reportFailure (d : Desc) (p : Peer) (n : Node) : Node :=
   match n.cfg.algo with
-  | .epidemic =>
-    match n.store.get d.key with
-    | none => n
-    | some it => n.setItem d.key { it with sentE := eraseFirst p.eid it.sentE }
+  | .epidemic => modRt d.key (fun r => { r with sentE := eraseFirst p.eid r.sentE }) n
   | .spray =>
     match lookupMeta n.spray d.key with
     | none => n
@@ -393,15 +399,10 @@ def reportFailure (d : Desc) (p : Peer) (n : Node) : Node :=
       match lookupMeta n.spray d.key with
       | none => n
       | some m => { n with spray := setMeta n.spray d.key { m with sent := eraseFirst p.eid m.sent } }
-  | .prophet =>
-    match n.store.get d.key with
-    | none => n
-    | some it => n.setItem d.key { it with sentP := eraseFirst p.eid it.sentP }
+  | .prophet => modRt d.key (fun r => { r with sentP := eraseFirst p.eid r.sentP }) n
   | .dtlsr =>
-    if n.cfg.dtlsrFail && (match d.bndl with | some b => b.dst = n.cfg.bcast | none => false) then
-      match n.store.get d.key with
-      | none => n
-      | some it => n.setItem d.key { it with sentD := eraseFirst p.eid it.sentD }
+    if n.cfg.dtlsrFail && (match d.bndl with | some b => decide (b.dst = n.cfg.bcast) | none => false) then
+      modRt d.key (fun r => { r with sentD := eraseFirst p.eid r.sentD }) n
     else n
 
 /-- `SenderForBundle` of the underlying algorithm: the chosen senders, the delete-afterwards flag,
@@ -413,8 +414,8 @@ def innerSenders (env : Env) (d : Desc) (b : Bundle) (n : Node) : List Peer × B
     match n.store.get d.key with
     | none => ([], false, d, n)
     | some it =>
-      let r := filterCLAs it.sentE all
-      (r.1, false, d, n.setItem d.key { it with sentE := r.2 })
+      let r := filterCLAs it.rt.sentE all
+      (r.1, false, d, modRt d.key (fun rt => { rt with sentE := r.2 }) n)
   | .spray =>
     match lookupMeta n.spray d.key with
     | none => ([], false, d, n)
@@ -440,16 +441,16 @@ def innerSenders (env : Env) (d : Desc) (b : Bundle) (n : Node) : List Peer × B
     match n.store.get d.key with
     | none => ([], false, d, n)
     | some it =>
-      let r := filterCLAs it.sentP (all.filter (fun p => env.cand p.eid b))
+      let r := filterCLAs it.rt.sentP (all.filter (fun p => env.cand p.eid b))
       if r.1.isEmpty then ([], false, d, n)
-      else (r.1, false, d, n.setItem d.key { it with sentP := r.2 })
+      else (r.1, false, d, modRt d.key (fun rt => { rt with sentP := r.2 }) n)
   | .dtlsr =>
     if b.dst = n.cfg.bcast then
       match n.store.get d.key with
       | none => ([], false, d, n)
       | some it =>
-        let r := filterCLAs it.sentD all
-        (r.1, false, d, n.setItem d.key { it with sentD := r.2 })
+        let r := filterCLAs it.rt.sentD all
+        (r.1, false, d, modRt d.key (fun rt => { rt with sentD := r.2 }) n)
     else
       match all.find? (fun p => env.cand p.eid b) with
       | some p => ([p], true, d, n)
@@ -521,7 +522,7 @@ def sendAll (env : Env) (d : Desc) (b : Bundle) : List Peer → Node → Node ×
     let n1 := { n with attempts := setNat n.attempts (p.addr, b.tag) (k + 1) }
     let n2 := if ok then n1 else reportFailure d p n1
     let r := sendAll env d b ps n2
-    (r.1, Output.sent p.addr b.tag ok :: r.2.1, ok || r.2.2)
+    (r.1, Output.sent p b ok :: r.2.1, ok || r.2.2)
 
 /-- `Core.forward`. -/
 def forward (env : Env) (d : Desc) (b : Bundle) (n : Node) : Node × List Output :=
@@ -559,7 +560,7 @@ def Desc.bundle (d : Desc) (n : Node) : Option Bundle :=
 /-- `Core.dispatching`. -/
 def dispatching (env : Env) (d : Desc) (n : Node) : Node × List Output :=
   let a := dispatchingAllowed env d n
-  if !a.1 then (a.2, [])
+  if !a.1 then ((if n.cfg.holdFix then bundleContraindicated d a.2 else a.2), [])
   else
     let n := a.2
     match d.bundle n with
